@@ -26,7 +26,7 @@ ASSUMPTIONS = ['RLIMIT_FSIZE applies to every file: the file that must fail is m
 ANCHORS = ['raggedarray:RaggedArray.append', 'raggedarray:RaggedArray.iterappend', 'raggedarray:RaggedArray._append',
            'array:Array._append', 'array:Array._checkarrayforappend']
 REQUIRED = ['mon.failure_oracle', 'mon.logic_faults', 'mon.overflow_faults', 'mon.write_fault_children']
-MIN_NONTRIVIAL = {'quick': 400, 'thorough': 3000}
+MIN_NONTRIVIAL = {'quick': 400, 'thorough': 2000}
 
 LOGIC = ['iterraises', 'badatom', 'badrank', 'unconvertible_str', 'complex_into_real', 'int_too_large']
 ATOMS = [(), (2,), (2, 3)]
@@ -34,28 +34,29 @@ ATOMS = [(), (2,), (2, 3)]
 
 def cases(tier, seed):
     combos = [('int32', 'little'), ('float64', 'big'), ('uint8', 'little'), ('complex64', 'big'), ('int16', 'big')]
-    idx = 0
     nmax = 3 if tier == 'quick' else 4
-    for start in ('empty', 'nonempty'):
+    for rot in range(1 if tier == 'quick' else 5):
+      idx = rot
+      for start in ('empty', 'nonempty'):
         for atom in ATOMS:
-            for kind in LOGIC:
-                for n in range(0, nmax + 1):
-                    for pos in range(0, n + 1):
-                        if kind != 'iterraises' and pos == n:
-                            continue
-                        nt, bo = combos[idx % len(combos)]
-                        idx += 1
-                        if kind == 'complex_into_real' and nt.startswith('complex'):
-                            nt = 'float32'
-                        yield {'k': 'logic', 'api': 'iterappend', 'start': start, 'atom': list(atom), 'kind': kind,
-                               'n': n, 'pos': pos, 'numtype': nt, 'bo': bo, 'indextype': gens.INDEXTYPES[idx % 7]}
-                if kind != 'iterraises':
-                    nt, bo = combos[idx % len(combos)]
-                    idx += 1
-                    if kind == 'complex_into_real' and nt.startswith('complex'):
-                        nt = 'int16'
-                    yield {'k': 'logic', 'api': 'append', 'start': start, 'atom': list(atom), 'kind': kind, 'n': 1,
-                           'pos': 0, 'numtype': nt, 'bo': bo, 'indextype': 'int64'}
+              for kind in LOGIC:
+                  for n in range(0, nmax + 1):
+                      for pos in range(0, n + 1):
+                          if kind != 'iterraises' and pos == n:
+                              continue
+                          nt, bo = combos[idx % len(combos)]
+                          idx += 1
+                          if kind == 'complex_into_real' and nt.startswith('complex'):
+                              nt = 'float32'
+                          yield {'k': 'logic', 'api': 'iterappend', 'start': start, 'atom': list(atom), 'kind': kind,
+                                 'n': n, 'pos': pos, 'numtype': nt, 'bo': bo, 'indextype': gens.INDEXTYPES[idx % 7]}
+                  if kind != 'iterraises':
+                      nt, bo = combos[idx % len(combos)]
+                      idx += 1
+                      if kind == 'complex_into_real' and nt.startswith('complex'):
+                          nt = 'int16'
+                      yield {'k': 'logic', 'api': 'append', 'start': start, 'atom': list(atom), 'kind': kind, 'n': 1,
+                             'pos': 0, 'numtype': nt, 'bo': bo, 'indextype': 'int64'}
     for it, limit in (('int8', 127), ('uint8', 255), ('int16', 32767)):
         for atom in ((), (2,)):
             for pos in range(0, 3):
